@@ -23,11 +23,14 @@ def _resolve_forward_references() -> None:
         def _filter(p: Tuple[str, object]) -> bool:
             return isinstance(p[1], type) and attrs.has(p[1])
 
-        # Creating a concrete list here because `resolve_types` mutates the provided map.
-        items = list(filter(_filter, lsp_types.ALL_TYPES_MAP.items()))
+        # Resolve against a private copy because `resolve_types` mutates the provided map
+        # (it adds `__builtins__`), which breaks another thread iterating the shared map
+        # during a concurrent first call.
+        types_map = dict(lsp_types.ALL_TYPES_MAP)
+        items = list(filter(_filter, types_map.items()))
         for _, value in items:
             if isinstance(value, type):
-                attrs.resolve_types(value, lsp_types.ALL_TYPES_MAP, {})
+                attrs.resolve_types(value, types_map, {})
         _resolved_forward_references = True
 
 
